@@ -75,6 +75,8 @@ pub struct PWin {
     pub h: f32,
     pub setback: f32,
     pub overhang: Option<[f32; 5]>, // a, b, w, d, angle
+    /// the same fin on either side of the window: a, b, depth, height
+    pub fins: Option<[f32; 4]>,
 }
 #[derive(Serialize, Clone, Debug)]
 pub enum PLoc {
@@ -260,7 +262,12 @@ pub fn gen_proj(rng: &mut Rng, o: &GenOpts) -> Proj {
             let sname = format!("{}_E{:02}", fname, si + 1);
             let w = widths[si];
             let fancy = o.polygon_outlines && nsp == 1;
-            let pts = outline(rng, w, depth, fancy);
+            let mut pts = outline(rng, w, depth, fancy);
+            // an outline may list a corner twice in a row (a zero-length edge, as drawing tools leave behind): the edges keep their numbers
+            if nsp == 1 && rng.chance(1, 2) {
+                let dup = pts[1];
+                pts.insert(2, dup);
+            }
             let rotated = o.rotated_spaces && rng.chance(1, 2);
             let az = if rotated { *rng.pick(&[90.0f32, 180.0, 270.0, 30.0, 215.5]) } else { 0.0 };
             let mut walls = vec![];
@@ -272,6 +279,12 @@ pub fn gen_proj(rng: &mut Rng, o: &GenOpts) -> Proj {
                 let shared_prev = !fancy && k == 3 && si > 0;
                 if shared_prev {
                     continue;
+                }
+                {
+                    let (a, b) = (pts[k], pts[(k + 1) % pts.len()]);
+                    if a == b {
+                        continue; // no wall on a zero-length edge
+                    }
                 }
                 wi += 1;
                 let lay = rng.pick(&layers).name.clone();
@@ -296,6 +309,7 @@ pub fn gen_proj(rng: &mut Rng, o: &GenOpts) -> Proj {
                             h: hh,
                             setback: if rng.chance(1, 2) { r2(rng, 0.05, 0.4) } else { 0.0 },
                             overhang: if rng.chance(1, 5) { Some([0.1, 0.2, ww + 0.2, r2(rng, 0.3, 1.0), 0.0]) } else { None },
+                            fins: if rng.chance(1, 6) { Some([0.1, 0.0, r2(rng, 0.2, 0.8), hh]) } else { None },
                         });
                     }
                 }
@@ -399,7 +413,13 @@ pub fn gen_proj(rng: &mut Rng, o: &GenOpts) -> Proj {
         };
         shades.push(PShade { name: format!("Sombra{:03}", i + 1), geom });
     }
-    let tbs = vec![PTb { name: "UNION_CUBIERTA".into(), length: r2(rng, 5.0, 60.0), psi: r2(rng, 0.05, 1.0) }, PTb { name: "ESQUINA_CONVEXA".into(), length: r2(rng, 5.0, 60.0), psi: r2(rng, 0.05, 0.5) }];
+    let mut tbs = vec![PTb { name: "UNION_CUBIERTA".into(), length: r2(rng, 5.0, 60.0), psi: r2(rng, 0.05, 1.0) }, PTb { name: "ESQUINA_CONVEXA".into(), length: r2(rng, 5.0, 60.0), psi: r2(rng, 0.05, 0.5) }];
+    // user-defined bridges named after the standard ones (only the exact names have a kind), and the other standard names
+    for n in ["ESQUINA_CONVEXA_FORJADO_P02", "PILAR_2", "FRENTE_FORJADO", "HUECO_JAMBA", "UNION_SOLERA_PAREDEXT", "ESQUINA_CONVEXA_FORJADO", "Puente propio"] {
+        if rng.chance(1, 2) {
+            tbs.push(PTb { name: n.into(), length: r2(rng, 1.0, 40.0), psi: r2(rng, 0.05, 0.9) });
+        }
+    }
     Proj { azimuth: if rng.chance(1, 3) { 0.0 } else { r2(rng, 0.0, 359.9) }, materials, layers, glasses, frames, gaps, days, weeks, years, conds, floors, shades, tbs }
 }
 
@@ -618,6 +638,14 @@ pub fn print_proj(p: &Proj) -> String {
                     w(&format!("                        WIDTH          = {}", wn.w));
                     w(&format!("                        GAP            = \"{}\"", wn.gap));
                     w("                        COEFF = ( 1.000000, 1.000000, 1.000000, 1.000000)");
+                    if let Some(f) = wn.fins {
+                        for side in ["LEFT", "RIGHT"] {
+                            w(&format!("                        {side}-FIN-A     = {}", f[0]));
+                            w(&format!("                        {side}-FIN-B     = {}", f[1]));
+                            w(&format!("                        {side}-FIN-D     = {}", f[2]));
+                            w(&format!("                        {side}-FIN-H     = {}", f[3]));
+                        }
+                    }
                     if let Some(o) = wn.overhang {
                         w(&format!("                        OVERHANG-A     = {}", o[0]));
                         w(&format!("                        OVERHANG-B     = {}", o[1]));
